@@ -443,4 +443,96 @@ theorem xgress_regenerated (s : EState) (src dst : KPeer) (isIngress : Bool) (pr
         (genByBANP s.eng src dst isIngress proto port) := by
   rw [allowedXgressConnection_eq, allowedXgressConnectionByAdminNetpols_eq, allowedXgressConnectionByNetpols_eq, genByBANP_eq]
 
+-- ------------------------------------------------------------------------------------------
+-- insertAdminNetworkPolicy: the refusals in the order of the Go function, the binary search, the splice
+
+/-- the index `sort.Search` returns on a list ordered by priority: the number of leading policies whose priority is not greater -/
+def searchIdx (a : ANP) (l : List ANP) : Nat := (l.takeWhile (fun b => !decide (b.prio > a.prio))).length
+
+/-- the model's `insertSorted` is the splice at the index the search finds (for every list) -/
+theorem insertSorted_eq_splice (a : ANP) (l : List ANP) :
+    Engine.insertSorted a l = l.take (searchIdx a l) ++ [a] ++ l.drop (searchIdx a l) := by
+  induction l with
+  | nil => rfl
+  | cons b bs ih =>
+    unfold Engine.insertSorted searchIdx
+    by_cases h : b.prio > a.prio
+    · simp [h, List.takeWhile]
+    · simp only [h, if_false, List.takeWhile, decide_false, Bool.not_false, List.length_cons, List.take_succ_cons, List.drop_succ_cons,
+        List.cons_append]
+      rw [ih]
+      simp [searchIdx]
+
+/-- on a list strictly ordered by priority, "the entry before the insertion point has the same priority" is "some entry has" -/
+theorem samePrio_at_searchIdx (a : ANP) (l : List ANP) (hs : l.Pairwise (fun x y => x.prio < y.prio)) :
+    (decide (searchIdx a l > 0) && ((l[searchIdx a l - 1]?.map (·.prio)) == some a.prio)) = l.any (fun b => b.prio == a.prio) := by
+  induction l with
+  | nil => rfl
+  | cons b bs ih =>
+    have hb : ∀ c ∈ bs, b.prio < c.prio := (List.pairwise_cons.mp hs).1
+    have hbs := (List.pairwise_cons.mp hs).2
+    by_cases h : b.prio > a.prio
+    · -- nothing is ≤ a.prio: the index is 0 and no entry has the priority
+      have hany : bs.any (fun c => c.prio == a.prio) = false := by
+        rw [List.any_eq_false]
+        intro c hc
+        have := hb c hc
+        simp; omega
+      have hbe : (b.prio == a.prio) = false := by simp; omega
+      simp [searchIdx, List.takeWhile, h, hany, hbe]
+    · have hk : searchIdx a (b :: bs) = searchIdx a bs + 1 := by simp [searchIdx, List.takeWhile, h]
+      rw [hk]
+      by_cases hk0 : searchIdx a bs = 0
+      · -- the block of entries ≤ a.prio is `[b]`: every later entry is greater
+        have hany : bs.any (fun c => c.prio == a.prio) = false := by
+          cases bs with
+          | nil => rfl
+          | cons c cs =>
+            have hc : c.prio > a.prio := by
+              by_cases hc : c.prio > a.prio
+              · exact hc
+              · simp [searchIdx, List.takeWhile, hc] at hk0
+            rw [List.any_eq_false]
+            intro d hd
+            have h1 : c.prio ≤ d.prio := by
+              rcases List.mem_cons.mp hd with rfl | hd'
+              · exact Int.le_refl _
+              · exact Int.le_of_lt ((List.pairwise_cons.mp hbs).1 d hd')
+            simp; omega
+        simp [hk0, hany]
+      · -- the entry before the insertion point lies in `bs`; `b` is strictly smaller than all of it, hence than a.prio
+        have hpos : searchIdx a bs > 0 := Nat.pos_of_ne_zero hk0
+        have hbne : (b.prio == a.prio) = false := by
+          cases bs with
+          | nil => simp [searchIdx] at hk0
+          | cons c cs =>
+            have hc : ¬ c.prio > a.prio := by
+              intro hc
+              simp [searchIdx, List.takeWhile, hc] at hk0
+            have := hb c (List.mem_cons_self)
+            simp; omega
+        have hidx : (b :: bs)[searchIdx a bs + 1 - 1]? = bs[searchIdx a bs - 1]? := by
+          have : searchIdx a bs + 1 - 1 = (searchIdx a bs - 1) + 1 := by omega
+          rw [this, List.getElem?_cons_succ]
+        rw [hidx]
+        have := ih hbs
+        simp only [List.any_cons, hbne, Bool.false_or]
+        rw [← this]
+        simp [hpos]
+
+/-- `insertAdminNetworkPolicy` on an engine whose admin policies are strictly ordered by priority (the invariant of every
+reachable state: C15 `anps_strictly_sorted_invariant`): the model's `insertANP` is the Go function - exposure refusal, name
+refusal, range refusal, the binary search and the same-priority refusal, then the splice at the index found -/
+theorem insertAdminNetworkPolicy_eq (e : Engine) (a : ANP) (hs : e.anps.Pairwise (fun x y => x.prio < y.prio)) :
+    e.insertANP a = Gen.Procs.insertAdminNetworkPolicy e a := by
+  have h1 := insertSorted_eq_splice a e.anps
+  have h2 := samePrio_at_searchIdx a e.anps hs
+  unfold searchIdx at h1 h2
+  unfold Engine.insertANP Gen.Procs.insertAdminNetworkPolicy
+  rw [h1, ← h2]
+  cases hd : (decide ((List.takeWhile (fun b => !decide (b.prio > a.prio)) e.anps).length > 0) &&
+      Option.map (fun x => x.prio) e.anps[(List.takeWhile (fun b => !decide (b.prio > a.prio)) e.anps).length - 1]? == some a.prio) <;>
+    cases hx : e.exposure <;> cases hv : a.validPriority <;> by_cases hn : a.name ∈ e.anpNames <;>
+    simp [hd, hx, hv, hn, bind, Except.bind, pure, Except.pure, throw, throwThe, MonadExceptOf.throw]
+
 end Netpol.Tie.Procs
